@@ -13,7 +13,7 @@
                             valid tree index — so every parent-chain walk of the contents iterator
                             terminates and never indexes out of range;
   * `chain_fuel`, `build_chain_fuel`  the fuel `tree.size + 1` of the parent-chain walk is never exhausted;
-  Stated, not proved: `CellIndex_contents_correct` (see the comment there).
+  Stated here, proved in `CU/CellIndexBuild.lean` (`build_contents_correct`): `CellIndex_contents_correct`.
 -/
 import S2.CellIndex
 open S2 S2.CellID S2.CellIndex
@@ -326,18 +326,17 @@ theorem build_chain_fuel (cells : List (CellID × Int)) (r : RangeNode) (hr : r 
   rw [chain_fuel _ hw _ _ _ this.2 (Nat.le_refl _) (by omega),
       chain_fuel _ hw _ _ ((build cells).tree.size + 1) this.2 (Nat.le_refl _) (by omega)]
 
-/-! ### the full correctness statement (NOT proved here)
+/-! ### the full correctness statement (proved in `CU/CellIndexBuild.lean`: `build_contents_correct`)
 
 For all valid cells with non-negative labels: for every range node `[start, limit)` of the index and
 EVERY leaf position `x` in it, walking the parent chain from the range's `contents` node reports
 exactly the added pairs whose cell contains `x` (as a multiset); moreover the ranges tile the
 whole curve `[firstLeaf, endLeaf)`.
 
-What is missing for a proof: the stack invariant of `buildLoop` (the parent chain from `contents`
-is the multiset of pairs whose delta interval is open at the current position) together with the
-fact that at equal `startID` all pops precede all pushes and larger cells are pushed first; the
-sortedness part (`build_ranges_sorted`) and the node multiset (`build_tree_perm`) are proved above.
-The statement is checked exhaustively at run time by the oracle judge `Oracle.C11b.judgeRanges`
+The proof (files `CU/CellIndexStack.lean`, `CU/CellIndexBuild.lean`) is the stack invariant of `buildLoop`:
+the pending pop positions are exactly the end positions of the stack entries and of the pairs still to be
+pushed; the stack is nested; at equal `startID` all pops precede all pushes and larger cells are pushed
+first.  The statement is additionally checked at run time by the oracle judge `Oracle.C11b.judgeRanges`
 on the implementation's output (first / middle / last leaf of every range). -/
 def CellIndex_contents_correct : Prop :=
   ∀ cells : List (CellID × Int), (∀ p ∈ cells, isValid p.1 = true ∧ 0 ≤ p.2) →
